@@ -1,6 +1,7 @@
 package rules
 
 import (
+	"os"
 	"fmt"
 	"go/token"
 	"sort"
@@ -77,7 +78,9 @@ type symEval struct {
 	truth func(e string) int              // +1 / -1 / 0 for a condition expression
 	field func(base, field string) string // the value of base.field ("" = base.field)
 	elem  func(slice string) string       // the generic element of a slice ("" = ELEM(slice))
-	norm  func(e string) string
+	// elemAt: the element at a constant index (indexing loops over a probe string)
+	elemAt func(coll string, idx int64) string
+	norm   func(e string) string
 	// nonEmpty: the collection a loop ranges over has at least one element (the zero-iteration path is not taken)
 	nonEmpty func(coll string) bool
 	steps    int
@@ -216,6 +219,9 @@ func (se *symEval) run(f *ssa.Function, args []sval, free []sval, st0 *sstate, d
 					continue
 				}
 				cv := se.truthOf(se.val(t.Cond, st))
+				if os.Getenv("MUXLINT_DEBUG_SYM") != "" {
+					fmt.Fprintf(os.Stderr, "  sym %s b%d if %s => %s (%d)\n", f.Name(), cur.b.Index, t.Cond.String(), se.val(t.Cond, st).e, cv)
+				}
 				if isLoopHdr {
 					cv = 0 // the list may be empty or not
 					if se.nonEmpty != nil {
@@ -287,6 +293,13 @@ func (se *symEval) instr(x ssa.Value, st *sstate) sval {
 		b := se.val(i.X, st)
 		return sv("ADDR:ELEM(" + b.e + ")")
 	case *ssa.Index:
+		if se.elemAt != nil {
+			if n, ok := constInt(se.val(i.Index, st).e); ok {
+				if e := se.elemAt(se.val(i.X, st).e, n); e != "" {
+					return sv(e)
+				}
+			}
+		}
 		return se.load("ELEM("+se.val(i.X, st).e+")", st)
 	case *ssa.UnOp:
 		switch i.Op {
@@ -318,6 +331,17 @@ func (se *symEval) instr(x ssa.Value, st *sstate) sval {
 		return sv("UNK:unop")
 	case *ssa.Lookup:
 		m, k := se.val(i.X, st), se.val(i.Index, st)
+		if isStringType(i.X.Type()) && !i.CommaOk {
+			// a byte of a string
+			if se.elemAt != nil {
+				if n, ok := constInt(k.e); ok {
+					if e := se.elemAt(m.e, n); e != "" {
+						return sv(e)
+					}
+				}
+			}
+			return se.load("ELEM("+m.e+")", st)
+		}
 		e := se.n("LOOKUP(" + m.e + "," + k.e + ")")
 		if i.CommaOk {
 			return sval{e: "TUPLE", tuple: []sval{sv(e), sv("FOUND(" + m.e + "," + k.e + ")")}}
